@@ -253,6 +253,14 @@ Proof.
   unfold has_DT. rewrite (ext_attrs _ _ X). apply has_DT_init.
 Qed.
 
+Theorem unknown_name_raises_reachable : forall rows ops T str, ~ In str (map row_name element_base) ->
+  str <> "deuterium" -> str <> "tritium" ->
+  let s := run (init_state element_base rows) ops in step s (ByName T str) = (s, RErr ValueErr).
+Proof.
+  intros rows ops T str N1 N2 N3 s.
+  exact (unknown_name_raises element_base s T str (inv_reachable rows ops) (has_DT_reachable rows ops T) N1 N2 N3).
+Qed.
+
 (* ---- malformed 'A-Sym' strings raise in every reachable state *)
 Theorem one_two_H_raises : forall s T, Inv element_base s -> step s (ByIsoString T "1-2-H") = (s, RErr ValueErr).
 Proof.
@@ -378,18 +386,20 @@ Definition sweep_b (s : state) (rows : list (Z * Z)) : bool :=
 Lemma sweep_the_init : sweep_b the_init the_rows = true.
 Proof. vm_compute. reflexivity. Qed.
 
+Lemma sweep_elim : forall s rows, sweep_b s rows = true -> forall T,
+  (forall r, In r element_base -> routes_ok s T r = true) /\
+  (forall za, In za rows -> iso_routes_ok s T za = true).
+Proof.
+  intros s rows S T. unfold sweep_b in S. rewrite forallb_forall in S.
+  assert (HT : In T [TPub; TPriv]) by (destruct T; simpl; auto).
+  specialize (S T HT). cbv beta in S. apply andb_prop in S. destruct S as [S1 S2].
+  rewrite forallb_forall in S1. rewrite forallb_forall in S2. split; assumption.
+Qed.
+
 Theorem every_element_resolves : forall T r, In r element_base -> routes_ok the_init T r = true.
-Proof.
-  intros T r H. pose proof sweep_the_init as S. unfold sweep_b in S. rewrite forallb_forall in S.
-  assert (HT : In T [TPub; TPriv]) by (destruct T; simpl; auto).
-  specialize (S T HT). apply andb_prop in S. destruct S as [S _]. rewrite forallb_forall in S. exact (S r H).
-Qed.
+Proof. intro T. exact (proj1 (sweep_elim the_init the_rows sweep_the_init T)). Qed.
 Theorem every_isotope_resolves : forall T za, In za the_rows -> iso_routes_ok the_init T za = true.
-Proof.
-  intros T za H. pose proof sweep_the_init as S. unfold sweep_b in S. rewrite forallb_forall in S.
-  assert (HT : In T [TPub; TPriv]) by (destruct T; simpl; auto).
-  specialize (S T HT). apply andb_prop in S. destruct S as [_ S]. rewrite forallb_forall in S. exact (S za H).
-Qed.
+Proof. intro T. exact (proj2 (sweep_elim the_init the_rows sweep_the_init T)). Qed.
 
 (* ---- isotope('0-H'): the string names isotope 0 of hydrogen, which does not exist, and the call
         returns the element instead of raising *)
@@ -407,7 +417,8 @@ Qed.
 (* what does hold: with a non-zero isotope number the object returned is that isotope *)
 Theorem iso_string_partial : forall s T str o, Inv element_base s -> by_iso_string s T str = Ok o ->
   fst (parse_iso_string str) <> 0%Z ->
-  exists e, hget s o = Some (OIsotope e (fst (parse_iso_string str))) /            alookup (snd (parse_iso_string str)) (attrs s T) = Some e.
+  exists e, hget s o = Some (OIsotope e (fst (parse_iso_string str))) /\
+            alookup (snd (parse_iso_string str)) (attrs s T) = Some e.
 Proof.
   intros s T str o I H N. destruct (by_iso_string_obj _ _ _ _ _ I H) as [attr [A [[E _]|[_ G]]]]; [congruence|].
   exists attr. auto.
